@@ -18,6 +18,9 @@ CONFIGS = {
     "v2": ("cl0", ["MON_VARIANT=2"]),                  # another void mix
     "v3": ("cl0", ["MON_VARIANT=3"]),                  # void + bool veto
     "v4": ("asan0", ["MON_VARIANT=4"]),                # void + veto + throwing (std and non-std)
+    "v5": ("asan0", ["MON_VARIANT=5"]),                # void + state/action/control switches (C13)
+    "lazy5": ("cl0", ["MON_VARIANT=5", "MON_LAZY=1"]),
+    "all5": ("cl0", ["MON_VARIANT=5", "MON_CTRL=3"]),
     "lazy1": ("cl0", ["MON_VARIANT=1", "MON_LAZY=1"]),
     "lazy3": ("cl0", ["MON_VARIANT=3", "MON_LAZY=1"]),
     "plain": ("cl0", ["MON_PLAIN", "MON_VARIANT=0"]),  # nothing/normal, 4 apply x rewind combinations
@@ -45,6 +48,7 @@ SIZES = {
     "exc": (80, 800),
     "act": (80, 800),
     "tree": (60, 600),
+    "state": (100, 1000),
     "chain": (0, 0),
 }
 
